@@ -184,6 +184,12 @@ def mon_c20_engineapi(case, verdict, chk):
                           "used works, yet Parse fails reading a file from disk" %
                           (v.get("supplied") or "all", "no context directory on disk" if v.get("disk") == "none" else "the others are in the context directory"), rep)
             continue
+        if v["name"].startswith("same_engine"):
+            chk.violation("C20:depends-on-earlier-calls",
+                          "an engine instance that has parsed and run other contexts before (same file names%s) returns %s for this context; "
+                          "a fresh engine and the direct run return %s" % (", among them this tree with one leaf changed" if case.get("mod_file") else "",
+                                                                            _res_key(r)[:2], _res_key(base)[:2]), rep)
+            continue
         chk.violation("C20:engine-differs-from-direct", "variant %s: engine %s, direct %s" % (v["name"], _res_key(r)[:2], _res_key(base)[:2]), rep)
 
     # -- working-directory dependence: same absolute context directory, three working directories -------------------------
